@@ -50,7 +50,7 @@ theorem ev_first_set_makes_ready (s s' : Eventual.St) (a : Eventual.Actor)
     s'.ready = true ∧ s'.pc a = .setOkCS ∧ s'.sets s.epoch = s.sets s.epoch + 1 ∧ s'.setVal s.epoch = s.arg a ∧
     (s.nbytes ≠ 0 → s'.value = s.arg a) := by
   rcases Eventual.acq_f_cases s s' a hs with ⟨_, hr', _⟩ | ⟨_, _, rfl⟩ | ⟨hp', _⟩ | ⟨hp', _⟩ | ⟨hp', _⟩ | ⟨hp', _⟩ |
-      ⟨hp', _⟩ | ⟨hp', _⟩ | ⟨hp', _⟩
+      ⟨hp', _⟩ | ⟨hp', _⟩ | ⟨hp', _⟩ | ⟨hp', _⟩
   · rw [hr] at hr'; cases hr'
   · refine ⟨rfl, by simp [Eventual.doSet, Eventual.setPc], by simp [Eventual.doSet, Eventual.setPc],
       by simp [Eventual.doSet, Eventual.setPc], ?_⟩
@@ -67,7 +67,7 @@ theorem ev_second_set_err_nochange (s s1 s2 s3 : Eventual.St) (a : Eventual.Acto
     rc = .errEventual ∧ s3.ready = true ∧ s3.value = s.value ∧ s3.q = s.q ∧ s3.sets = s.sets ∧ s3.lock = none ∧
     v = s.value := by
   rcases Eventual.acq_f_cases s s1 a h1 with ⟨_, _, rfl⟩ | ⟨_, hr', _⟩ | ⟨hp', _⟩ | ⟨hp', _⟩ | ⟨hp', _⟩ | ⟨hp', _⟩ |
-      ⟨hp', _⟩ | ⟨hp', _⟩ | ⟨hp', _⟩
+      ⟨hp', _⟩ | ⟨hp', _⟩ | ⟨hp', _⟩ | ⟨hp', _⟩
   · simp only [Eventual.step, Eventual.stepRel, Eventual.lockAs, Eventual.setPc, upd_same] at h2
     obtain ⟨rfl, _, _⟩ := Eventual.chk_some _ _ _ _ h2
     obtain ⟨hpc, hv, rfl⟩ := Eventual.ret_set _ _ _ _ _ _ h3
@@ -130,7 +130,7 @@ theorem ev_test_reads_ready (s s' : Eventual.St) (a : Eventual.Actor)
     (hs : Eventual.step s (.acq a false) = some s') (hp : s.pc a = .testCalled) :
     s'.pc a = (if s.ready then .testCS1 else .testCS0) ∧ s'.ready = s.ready ∧ s'.value = s.value := by
   rcases Eventual.acq_f_cases s s' a hs with ⟨hp', _⟩ | ⟨hp', _⟩ | ⟨hp', _⟩ | ⟨hp', _⟩ | ⟨_, hr, rfl⟩ | ⟨_, hr, rfl⟩ |
-      ⟨hp', _⟩ | ⟨hp', _⟩ | ⟨hp', _⟩
+      ⟨hp', _⟩ | ⟨hp', _⟩ | ⟨hp', _⟩ | ⟨hp', _⟩
   any_goals (rw [hp] at hp'; cases hp')
   all_goals simp [Eventual.lockAs, Eventual.setPc, hr]
 
@@ -143,7 +143,7 @@ theorem ev_reset (k : Eventual.Actor → Eventual.Kind) (nb : Nat) (v0 : Eventua
     s'.ready = false ∧ s'.epoch = s.epoch + 1 ∧ s'.sets s'.epoch = 0 ∧ s'.value = s.value ∧ s'.q = s.q := by
   have hi := ev_inv_reachable k nb v0 s h
   rcases Eventual.acq_f_cases s s' a hs with ⟨hp', _⟩ | ⟨hp', _⟩ | ⟨hp', _⟩ | ⟨hp', _⟩ | ⟨hp', _⟩ | ⟨hp', _⟩ |
-      ⟨_, rfl⟩ | ⟨hp', _⟩ | ⟨hp', _⟩
+      ⟨_, rfl⟩ | ⟨hp', _⟩ | ⟨hp', _⟩ | ⟨hp', _⟩
   any_goals (rw [hp] at hp'; cases hp')
   refine ⟨rfl, rfl, ?_, rfl, rfl⟩
   simpa [Eventual.setPc] using (hi.setsFut (s.epoch + 1) (by omega))
@@ -171,6 +171,42 @@ theorem ev_no_lost_wakeup (k : Eventual.Actor → Eventual.Kind) (nb : Nat) (v0 
       have := (hi'.inQ b).mpr hb
       simp [Eventual.unlockAs, Eventual.setPc, hq] at this
     · cases hs
+
+/-- **free only after the set is done** (ABT_eventual_free takes the lock — and never gives it back): the free
+proceeds only at a moment when nobody holds the eventual lock, i.e. when no setter (the one that woke the freeing
+waiter included) is between its lock acquisition and its lock release, and nobody is queued; and once the free holds
+the lock nobody else is ever inside a critical section of this object again.  So the idiom "wait, then free" by a
+woken waiter cannot pull the object away from under the setter that is still broadcasting. -/
+theorem ev_free_after_set_done (k : Eventual.Actor → Eventual.Kind) (nb : Nat) (v0 : Eventual.Val) (s : Eventual.St)
+    (h : (Eventual.machine k nb v0).Reachable s) :
+    (∀ a s', Eventual.step s (.acq a false) = some s' → s.pc a = .freeCalled →
+        s.lock = none ∧ (∀ b, ¬ Eventual.HoldsLock (s.pc b)) ∧ s.q = [] ∧ s'.pc a = .freeCS ∧ s'.lock = some a) ∧
+    (∀ a, (s.pc a = .freeCS ∨ s.pc a = .freed) →
+        s.lock = some a ∧ (∀ b, b ≠ a → ¬ Eventual.HoldsLock (s.pc b)) ∧
+        ∀ b s', Eventual.step s (.acq b false) ≠ some s') := by
+  have hi := ev_inv_reachable k nb v0 s h
+  constructor
+  · intro a s' hs hp
+    have hl := Eventual.acq_f_free s s' a hs
+    have hno : ∀ b, ¬ Eventual.HoldsLock (s.pc b) := by
+      intro b hb
+      have := (hi.lockIff b).mpr hb
+      rw [hl] at this; cases this
+    rcases Eventual.acq_f_cases s s' a hs with ⟨hp', _⟩ | ⟨hp', _⟩ | ⟨hp', _⟩ | ⟨hp', _⟩ | ⟨hp', _⟩ | ⟨hp', _⟩ |
+        ⟨hp', _⟩ | ⟨_, hq, rfl⟩ | ⟨hp', _⟩ | ⟨hp', _⟩
+    any_goals (rw [hp] at hp'; cases hp')
+    exact ⟨hl, hno, hq, by simp [Eventual.setPc], by simp [Eventual.setPc]⟩
+  · intro a hp
+    have hh : Eventual.HoldsLock (s.pc a) := by rcases hp with hp | hp <;> rw [hp] <;> trivial
+    have hl := (hi.lockIff a).mpr hh
+    refine ⟨hl, ?_, ?_⟩
+    · intro b hne hb
+      have h2 := (hi.lockIff b).mpr hb
+      rw [hl] at h2
+      exact hne (Option.some.inj h2).symm
+    · intro b s' hs
+      have := Eventual.acq_f_free s s' b hs
+      rw [hl] at this; cases this
 
 /-- a tasklet calling ABT_eventual_wait is rejected (1.x API) and never takes part in the protocol -/
 theorem ev_tasklet_wait_rejected (k : Eventual.Actor → Eventual.Kind) (nb : Nat) (v0 : Eventual.Val)
@@ -204,6 +240,19 @@ example :
       [.call 1 .set 5, .acq 1 false, .rel 1 true true, .ret 1 .set .ok false 5,
        .call 2 .set 6, .acq 2 false, .rel 2 true true, .ret 2 .set .ok false 6] = none := by decide
 
+/-- … and a free by the woken waiter while the setter is still inside its critical section; after the setter's release
+the free is accepted and nobody gets the lock any more -/
+example :
+    ((Eventual.machine (fun _ => .ult) 8 0).run (Eventual.init (fun _ => .ult) 8 0)
+      [.call 1 .wait 0, .acq 1 false, .enq 1, .rel 1 false false, .call 2 .set 5, .acq 2 false, .wake 2 1,
+       .ret 1 .wait .ok false 5, .call 1 .free 0, .acq 1 true, .acq 1 false]) = none ∧
+    ((Eventual.machine (fun _ => .ult) 8 0).run (Eventual.init (fun _ => .ult) 8 0)
+      [.call 1 .wait 0, .acq 1 false, .enq 1, .rel 1 false false, .call 2 .set 5, .acq 2 false, .wake 2 1,
+       .ret 1 .wait .ok false 5, .call 1 .free 0, .acq 1 true, .rel 2 true true, .acq 1 false, .ret 1 .free .ok false 0,
+       .ret 2 .set .ok false 5, .call 2 .test 0, .acq 2 true]).map (fun s => (s.pc 1, s.lock)) = some (.freed, some 1) ∧
+    ((Eventual.machine (fun _ => .ult) 8 0).run (Eventual.init (fun _ => .ult) 8 0)
+      [.call 1 .free 0, .acq 1 false, .ret 1 .free .ok false 0, .call 2 .test 0, .acq 2 false]) = none := by decide
+
 /-! ## ABT_future -/
 
 /-- the invariants are inductive for the whole step function -/
@@ -216,6 +265,7 @@ theorem fut_inv_step (s s' : Future.St) (e : Future.Ev) (h : Future.Inv s) (hs :
                  · exact Future.inv_stepAcq_f s s' a h hs
                  · exact Future.inv_stepAcq_t s s' a h hs
   | ldCnt a v => exact Future.inv_stepLdCnt s s' a v h hs
+  | cbBegin a => exact Future.inv_stepCbBegin s s' a h hs
   | cb a vs => exact Future.inv_stepCb s s' a vs h hs
   | stCnt a v => exact Future.inv_stepStCnt s s' a v h hs
   | enq a => exact Future.inv_stepEnq s s' a h hs
@@ -277,9 +327,9 @@ theorem fut_callback_once_before_any_return (k : Future.Actor → Future.Kind) (
       rw [Future.ret_test_true s s' a hs]; trivial
     exact (hi.sawOK a key).2.2 hc hn
 
-/-- the callback is called by the setter that fills the last compartment, before it stores the counter:
-at that moment the counter is still num_compartments − 1, so no test can have reported ready and no
-waiter can have been let through in this epoch on account of this set -/
+/-- the callback is called by the setter that fills the last compartment and has *returned* (`cb`) before that
+setter stores the counter: at that moment the counter is still num_compartments − 1, so no test can have reported
+ready and no waiter can have been let through in this epoch on account of this set -/
 theorem fut_callback_before_counter_store (k : Future.Actor → Future.Kind) (n : Nat) (c : Bool) (s s' : Future.St)
     (h : (Future.machine k n c).Reachable s) (a : Future.Actor) (vs : List Future.Val)
     (hs : Future.step s (.cb a vs) = some s') :
@@ -289,10 +339,143 @@ theorem fut_callback_before_counter_store (k : Future.Actor → Future.Kind) (n 
   split at hs
   · rename_i hc
     cases hs
-    have h1 := hi.cbStage a hc.1
+    have h1 := hi.cbRunStage a hc.1
     have h2 := hi.staged a (by rw [hc.1]; trivial)
-    refine ⟨by omega, h1.2.2, by simp [Future.setPc, h1.2.2], rfl⟩
+    refine ⟨by omega, h1.2.2.1, by simp [Future.setPc, h1.2.2.1], rfl⟩
   · cases hs
+
+/-- **ready is not observable before the callback has completed** (lock-free ABT_future_test): when the acquire
+load of ABT_future_test reads num_compartments — so the test will answer TRUE — the callback of the epoch (if the
+future has one and at least one compartment) has been invoked exactly once *and has returned*, and nobody is about to
+call it or inside it.  Conversely, while some setter is about to call the callback or inside it, the counter is
+still below num_compartments: every test answers FALSE and no waiter passes. -/
+theorem fut_test_ready_after_callback (k : Future.Actor → Future.Kind) (n : Nat) (c : Bool) (s : Future.St)
+    (h : (Future.machine k n c).Reachable s) :
+    (∀ a v s', Future.step s (.tload a v) = some s' → v = s.n → s.hasCb = true → 0 < s.n →
+        s'.pc a = .testDone1 ∧ s.cbBeg s.epoch = 1 ∧ s.cbRuns s.epoch = 1 ∧
+        ∀ b, s.pc b ≠ .setCbCS ∧ s.pc b ≠ .setCbRun) ∧
+    (∀ b, (s.pc b = .setCbCS ∨ s.pc b = .setCbRun) → s.counter < s.n ∧ s.cbRuns s.epoch = 0 ∧
+        ∀ a v s', Future.step s (.tload a v) = some s' → s'.pc a = .testDone0) := by
+  have hi := (fut_inv_reachable k n c s h).1
+  have hcs := hi.cbStage; have hcr := hi.cbRunStage; have hst := hi.staged
+  constructor
+  · intro a v s' hs hv hc hn
+    simp only [Future.step, Future.stepTload] at hs
+    split at hs
+    · rename_i hcc
+      cases hs
+      have hfull : s.counter = s.n := by rw [← hcc.2]; exact hv
+      have hr := hi.cbFull hfull hc hn
+      have hno : ∀ b, s.pc b ≠ .setCbCS ∧ s.pc b ≠ .setCbRun := by
+        intro b
+        constructor
+        · intro hb; have := (hcs b hb).2.2.1; omega
+        · intro hb; have := (hcr b hb).2.2.1; omega
+      refine ⟨by simp [Future.setPc, hv], ?_, hr, hno⟩
+      cases hl : s.lock with
+      | none => rw [hi.begFree hl]; exact hr
+      | some x =>
+        have hx := (hi.lockIff x).mp hl
+        by_cases hsx : Future.Staged (s.pc x)
+        · have h3 : s.pc x = .setStCS := by
+            have := (hno x).1; have := (hno x).2
+            cases hpx : s.pc x <;> simp_all [Future.Staged]
+          rw [(hi.stStage x h3).2]; exact hr
+        · rw [hi.begHeld x hx hsx]; exact hr
+    · cases hs
+  · intro b hb
+    have hlt : s.counter < s.n ∧ s.cbRuns s.epoch = 0 := by
+      rcases hb with hb | hb
+      · have h1 := hcs b hb; have h2 := hst b (by rw [hb]; trivial); exact ⟨by omega, h1.2.2.1⟩
+      · have h1 := hcr b hb; have h2 := hst b (by rw [hb]; trivial); exact ⟨by omega, h1.2.2.1⟩
+    refine ⟨hlt.1, hlt.2, ?_⟩
+    intro a v s' hs
+    simp only [Future.step, Future.stepTload] at hs
+    split at hs
+    · rename_i hcc
+      cases hs
+      have : v ≠ s.n := by rw [hcc.2]; omega
+      simp [Future.setPc, this]
+    · cases hs
+
+/-- **reset is linearizable with the sets** (no lost update on the counter): ABT_future_reset stores 0 while it
+holds the future lock, hence at that step no set is between its load of the counter and its store (nobody is
+`Staged`), and the new epoch starts with counter 0 and no set counted; and whenever a set stores the counter it
+holds the lock and the value it stores is exactly the current counter plus one — the counter has not been changed
+(in particular not reset) since that set loaded it.  Together: the counter always equals the number of sets that
+completed since the last reset (`fut_ready_at_nth`). -/
+theorem fut_reset_linearizable (k : Future.Actor → Future.Kind) (n : Nat) (c : Bool) (s : Future.St)
+    (h : (Future.machine k n c).Reachable s) :
+    (∀ a v s', Future.step s (.stCnt a v) = some s' → s.pc a = .resetCS →
+        v = 0 ∧ s.lock = some a ∧ (∀ b, ¬ Future.Staged (s.pc b)) ∧ s'.counter = 0 ∧ s'.epoch = s.epoch + 1 ∧
+        s'.sets s'.epoch = 0 ∧ s'.vals = []) ∧
+    (∀ a v s', Future.step s (.stCnt a v) = some s' → s.pc a = .setStCS →
+        v = s.counter + 1 ∧ s.lock = some a ∧ s'.epoch = s.epoch ∧ s'.sets s.epoch = s.sets s.epoch + 1 ∧
+        s'.counter = s'.sets s'.epoch) := by
+  have hi := (fut_inv_reachable k n c s h).1
+  constructor
+  · intro a v s' hs hp
+    have hi' := fut_inv_step s s' _ hi hs
+    have hl := (hi.lockIff a).mpr (by rw [hp]; trivial)
+    simp only [Future.step, Future.stepStCnt, hp] at hs
+    split at hs
+    · rename_i hv
+      cases hs
+      refine ⟨hv, hl, ?_, rfl, rfl, ?_, rfl⟩
+      · intro b hb
+        have := Future.holder_unique s hi a (by rw [hp]; trivial) b (Future.staged_holds _ hb)
+        subst this
+        rw [hp] at hb; exact hb
+      · simpa [Future.setPc] using (hi.fut (s.epoch + 1) (by omega)).1
+    · cases hs
+  · intro a v s' hs hp
+    have hi' := fut_inv_step s s' _ hi hs
+    have hl := (hi.lockIff a).mpr (by rw [hp]; trivial)
+    have hst := hi.staged a (by rw [hp]; trivial)
+    have hc' := hi'.cntSets
+    simp only [Future.step, Future.stepStCnt, hp] at hs
+    split at hs
+    · rename_i hv
+      cases hs
+      refine ⟨by omega, hl, rfl, by simp [Future.setPc], ?_⟩
+      simpa [Future.setPc] using hc'
+    · cases hs
+
+/-- **free only after every set is done** (ABT_future_free takes the lock — and never gives it back): the free
+proceeds only at a moment when nobody holds the future lock, i.e. when no setter (the one that woke the freeing
+waiter included) is between its lock acquisition and its lock release, and nobody is queued; and once the free
+holds the lock nobody else is ever inside a critical section of this object again. -/
+theorem fut_free_after_set_done (k : Future.Actor → Future.Kind) (n : Nat) (c : Bool) (s : Future.St)
+    (h : (Future.machine k n c).Reachable s) :
+    (∀ a s', Future.step s (.acq a false) = some s' → s.pc a = .freeCalled →
+        s.lock = none ∧ (∀ b, ¬ Future.HoldsLock (s.pc b)) ∧ s.q = [] ∧ s'.pc a = .freeCS ∧ s'.lock = some a) ∧
+    (∀ a, (s.pc a = .freeCS ∨ s.pc a = .freed) →
+        s.lock = some a ∧ (∀ b, b ≠ a → ¬ Future.HoldsLock (s.pc b)) ∧ ∀ b s', Future.step s (.acq b false) ≠ some s') := by
+  have hi := (fut_inv_reachable k n c s h).1
+  constructor
+  · intro a s' hs hp
+    have hl := Future.acq_f_free s s' a hs
+    simp only [Future.step, Future.stepAcq, hp] at hs
+    split at hs
+    · cases hs
+    · simp only [Bool.false_eq_true, if_false] at hs
+      split at hs
+      · rename_i hq
+        cases hs
+        refine ⟨hl, ?_, hq, by simp [Future.lockAs, Future.setPc], by simp [Future.lockAs, Future.setPc]⟩
+        intro b hb
+        have := (hi.lockIff b).mpr hb
+        rw [hl] at this; cases this
+      · cases hs
+  · intro a hp
+    have hh : Future.HoldsLock (s.pc a) := by rcases hp with hp | hp <;> rw [hp] <;> trivial
+    have hl := (hi.lockIff a).mpr hh
+    refine ⟨hl, ?_, ?_⟩
+    · intro b hne hb
+      exact hne (Future.holder_unique s hi a hh b hb)
+    · intro b s' hs
+      have := Future.acq_f_free s s' b hs
+      rw [hl] at this; cases this
 
 /-- **further sets fail**: a set whose load of the counter finds it ≥ num_compartments (all compartments
 taken — or a future without compartments) changes nothing and can only return ABT_ERR_FUTURE; and never
@@ -364,7 +547,7 @@ theorem fut_values_all_passed (k : Future.Actor → Future.Kind) (n : Nat) (c : 
   simp only [Future.step, Future.stepCb] at hs
   split at hs
   · rename_i hc
-    have h1 := hi.cbStage a hc.1
+    have h1 := hi.cbRunStage a hc.1
     have h2 := hi.staged a (by rw [hc.1]; trivial)
     have hl : s.vals.length = s.n := by omega
     have := Future.fill_full s hf s.n hl
@@ -415,7 +598,7 @@ example :
       [.call 1 .wait 0, .acq 1 false, .ldCnt 1 0, .enq 1, .rel 1 0 2 false,
        .call 2 .set 7, .acq 2 false, .ldCnt 2 0, .stCnt 2 1, .rel 2 1 2 false, .ret 2 .set .ok false,
        .call 3 .test 0, .tload 3 1, .ret 3 .test .ok false,
-       .call 4 .set 9, .acq 4 false, .ldCnt 4 1, .cb 4 [7, 9], .stCnt 4 2, .call 3 .test 0, .tload 3 2, .wake 4 1,
+       .call 4 .set 9, .acq 4 false, .ldCnt 4 1, .cbBegin 4, .cb 4 [7, 9], .stCnt 4 2, .call 3 .test 0, .tload 3 2, .wake 4 1,
        .rel 4 2 2 true, .ret 4 .set .ok false, .ret 3 .test .ok true,
        .call 2 .set 11, .acq 2 false, .ldCnt 2 2, .rel 2 2 2 true, .ret 2 .set .errFuture false,
        .ret 1 .wait .ok false, .arr [7, 9],
@@ -426,7 +609,32 @@ example :
 /-- the model rejects a callback that runs after the counter store … -/
 example :
     (Future.machine (fun _ => .ult) 1 true).run (Future.init (fun _ => .ult) 1 true)
-      [.call 1 .set 7, .acq 1 false, .ldCnt 1 0, .stCnt 1 1, .cb 1 [7]] = none := by decide
+      [.call 1 .set 7, .acq 1 false, .ldCnt 1 0, .stCnt 1 1, .cbBegin 1] = none := by decide
+
+/-- … a counter store (which a lock-free test could see) while the callback is still running … -/
+example :
+    (Future.machine (fun _ => .ult) 1 true).run (Future.init (fun _ => .ult) 1 true)
+      [.call 1 .set 7, .acq 1 false, .ldCnt 1 0, .cbBegin 1, .stCnt 1 1] = none := by decide
+
+/-- … a reset that stores the counter without holding the lock … -/
+example :
+    (Future.machine (fun _ => .ult) 2 false).run (Future.init (fun _ => .ult) 2 false)
+      [.call 1 .set 7, .acq 1 false, .ldCnt 1 0, .call 2 .reset 0, .stCnt 2 0] = none := by decide
+
+/-- … and a free while the setter that woke the waiter is still inside its critical section; after the setter's
+release the free is accepted, and from then on nobody gets the lock -/
+example :
+    ((Future.machine (fun _ => .ult) 1 false).run (Future.init (fun _ => .ult) 1 false)
+      [.call 1 .wait 0, .acq 1 false, .ldCnt 1 0, .enq 1, .rel 1 0 1 false,
+       .call 2 .set 7, .acq 2 false, .ldCnt 2 0, .stCnt 2 1, .wake 2 1, .ret 1 .wait .ok false,
+       .call 1 .free 0, .acq 1 true, .acq 1 false]) = none ∧
+    ((Future.machine (fun _ => .ult) 1 false).run (Future.init (fun _ => .ult) 1 false)
+      [.call 1 .wait 0, .acq 1 false, .ldCnt 1 0, .enq 1, .rel 1 0 1 false,
+       .call 2 .set 7, .acq 2 false, .ldCnt 2 0, .stCnt 2 1, .wake 2 1, .ret 1 .wait .ok false,
+       .call 1 .free 0, .acq 1 true, .rel 2 1 1 true, .acq 1 false, .ret 2 .set .ok false, .ret 1 .free .ok false,
+       .call 2 .set 9, .acq 2 true]).map (fun s => (s.pc 1, s.lock)) = some (.freed, some 1) ∧
+    ((Future.machine (fun _ => .ult) 1 false).run (Future.init (fun _ => .ult) 1 false)
+      [.call 1 .free 0, .acq 1 false, .ret 1 .free .ok false, .call 2 .set 9, .acq 2 false]) = none := by decide
 
 /-- … and a waiter of a 0-compartment future returns at once, no callback (the documented behaviour) -/
 example :
